@@ -14,7 +14,7 @@ for fn in ('RESULTS.tsv', 'CROSS.tsv'):
             if res[f[0]].get(f[1]) != 'DETECTED':
                 res[f[0]][f[1]] = r
 rows = []
-for d in sorted(glob.glob(os.path.join(root, 'seeded', 'C*'))):
+for d in sorted([d for d in glob.glob(os.path.join(root, 'seeded', 'C*')) if os.path.isdir(d)]):
     m = json.load(open(os.path.join(d, 'meta.json')))
     sid = m['id']
     det = sorted(k for k, v in res[sid].items() if v == 'DETECTED')
